@@ -173,15 +173,35 @@ Theorem C17_source_as_modelled :
   gen_src_unzip_inDir = model_src_unzip_inDir /\ gen_src_untar_inDir = model_src_untar_inDir /\
   gen_src_createFile = model_src_createFile /\
   gen_src_zipDir = model_src_zipDir /\ gen_src_zipFile = model_src_zipFile /\
-  gen_check_first_unzip = true /\ gen_check_first_untar = true.
+  gen_check_first_unzip = true /\ gen_check_first_untar = true /\
+  gen_src_openInTemp = model_src_openInTemp /\ gen_src_tarZipFile = model_src_tarZipFile /\
+  gen_src_copyZipFile = model_src_copyZipFile.
 Proof.
   exact (conj arch_src_unzip_unchanged (conj arch_calls_unzip_unchanged
         (conj arch_src_untar_unchanged (conj arch_calls_untar_unchanged
         (conj arch_src_unzip_inDir_unchanged (conj arch_src_untar_inDir_unchanged
         (conj arch_src_createFile_unchanged (conj arch_src_zipDir_unchanged
-        (conj arch_src_zipFile_unchanged (conj arch_unzip_check_first arch_untar_check_first)))))))))).
+        (conj arch_src_zipFile_unchanged (conj arch_unzip_check_first (conj arch_untar_check_first
+        (conj arch_src_openInTemp_unchanged (conj arch_src_tarZipFile_unchanged arch_src_copyZipFile_unchanged))))))))))))).
 Qed.
 Print Assumptions C17_source_as_modelled.
+
+(** The exported callers of the extractors are the extractors: [Cont.CopyOut]
+    touches the file system only through [writeTarToDir], [Cont.CopyOutFile]
+    only through [writeFirstFileAs], that one only through [createFile]; each
+    hands on its own destination parameter unchanged, and [writeFirstFileAs]
+    reads no entry name.  (Decided on the call skeletons regenerated from
+    dock/cont.go and dock/write_tar.go.) *)
+Theorem C17_callers_are_the_modelled_extractors :
+  (only_writer "writeTarToDir" gen_calls_copyout = true /\ gen_dest_arg_copyout = gen_dest_param_copyout) /\
+  (only_writer "writeFirstFileAs" gen_calls_copyoutfile = true /\ gen_dest_arg_copyoutfile = gen_dest_param_copyoutfile) /\
+  (only_writer "createFile" gen_calls_firstfile = true /\ gen_dest_arg_firstfile = gen_dest_param_firstfile /\
+   gen_uses_entry_name_firstfile = false).
+Proof.
+  exact (conj arch_copyout_is_the_modelled_extractor
+        (conj arch_copyoutfile_is_the_modelled_extractor arch_firstfile_ignores_entry_names)).
+Qed.
+Print Assumptions C17_callers_are_the_modelled_extractors.
 
 (** ** Non-vacuity *)
 
